@@ -140,22 +140,33 @@ theorem expireLoop_av {f : TorEv → Nat} (hf : Neutral f) (g : Geom) (to : Nat)
           exact ⟨⟨h1.1.trans hw.1, h1.2.trans hw.2⟩, h2⟩
         · exact ih (i+1) p evs d
 
-theorem handlePeerEv_av {f : TorEv → Nat} (hf : Neutral f) (g : Geom) (p : Peer) (e : PeerEv) (slow : Bool) :
-    sameBits p (handlePeerEv g p e slow).1 ∧ sumL f (handlePeerEv g p e slow).2.1 = 0 := by
+/-- every command except PeerMetadataComplete leaves the bitmap alone and emits nothing about availability -/
+theorem handlePeerEv_quiet {f : TorEv → Nat} (hf : Neutral f) (g : Geom) (k : Nat) (p : Peer) (e : PeerEv)
+    (slow : Bool) (hne : e ≠ .metadata) :
+    sameBits p (handlePeerEv g k p e slow).1 ∧ sumL f (handlePeerEv g k p e slow).2.1 = 0 := by
   unfold handlePeerEv
   cases e with
   | request cs =>
-    obtain ⟨h1, h2⟩ := enqueueAll_av hf g cs p []
-    obtain ⟨h3, h4⟩ := maybeRequest_av hf g slow (enqueueAll g cs p []).1 (enqueueAll g cs p []).2
-    exact ⟨h1.trans' h3, by simp only []; rw [h4, h2]; rfl⟩
+    simp only []
+    split
+    · exact ⟨sameBits.rfl' p, rfl⟩
+    · obtain ⟨h1, h2⟩ := enqueueAll_av hf g cs p []
+      obtain ⟨h3, h4⟩ := maybeRequest_av hf g slow (enqueueAll g cs p []).1 (enqueueAll g cs p []).2
+      exact ⟨h1.trans' h3, by simp only []; rw [h4, h2]; rfl⟩
   | cancel c =>
-    obtain ⟨h1, h2⟩ := cancelChunk_av hf g p c []
-    exact ⟨h1, by simp only []; rw [h2]; rfl⟩
+    simp only []
+    split
+    · exact ⟨sameBits.rfl' p, rfl⟩
+    · obtain ⟨h1, h2⟩ := cancelChunk_av hf g p c []
+      exact ⟨h1, by simp only []; rw [h2]; rfl⟩
   | cancelPiece idx =>
-    obtain ⟨h1, h2⟩ := cancelPieceLoop_av hf g idx g.cpp 0 p []
-    exact ⟨h1, by simp only []; rw [h2]; rfl⟩
+    simp only []
+    split
+    · exact ⟨sameBits.rfl' p, rfl⟩
+    · obtain ⟨h1, h2⟩ := cancelPieceLoop_av hf g idx g.cpp 0 p []
+      exact ⟨h1, by simp only []; rw [h2]; rfl⟩
   | done => exact ⟨sameBits.rfl' p, rfl⟩
-  | metadata => exact ⟨sameBits.rfl' p, rfl⟩
+  | metadata => exact absurd rfl hne
 
 end Storrent.Sched
 
@@ -258,9 +269,42 @@ namespace Storrent.Sched
 
 def bitW (p : Peer) (i : Nat) : Nat := if getB p.bits i then 1 else 0
 
-/-- well-formed bitmap: the right length, and nil means empty -/
-def BitsOK (g : Geom) (p : Peer) : Prop :=
-  p.bits.length = g.npieces ∧ (p.bmNil = true → ∀ j, getB p.bits j = false)
+/-- well-formed bitmap: nil means empty (the first component is a placeholder: bitmaps grow on demand) -/
+def BitsOK (_g : Geom) (p : Peer) : Prop :=
+  True ∧ (p.bmNil = true → ∀ j, getB p.bits j = false)
+
+theorem getB_append_false (l : List Bool) (n j : Nat) : getB (l ++ List.replicate n false) j = getB l j := by
+  induction l generalizing j with
+  | nil =>
+    simp only [List.nil_append]
+    rw [getB_replicate]; split <;> cases j <;> rfl
+  | cons x xs ih =>
+    cases j with
+    | zero => rfl
+    | succ j => simp [getB, ih]
+
+theorem getB_setBit_true (bits : List Bool) (x j : Nat) :
+    getB (setBit bits x true) j = (decide (x = j) || getB bits j) := by
+  unfold setBit
+  simp only [if_true]
+  rw [getB_setN, getB_append_false]
+  by_cases h : x = j
+  · subst h
+    simp
+    exact Or.inl (by omega)
+  · simp [h]
+
+theorem getB_setBit_false (bits : List Bool) (x j : Nat) :
+    getB (setBit bits x false) j = (!decide (x = j) && getB bits j) := by
+  unfold setBit
+  simp only [Bool.false_eq_true, if_false]
+  rw [getB_setN]
+  by_cases h : x = j
+  · subst h
+    by_cases hl : x < bits.length
+    · simp [hl]
+    · simp [hl, getB_ge bits x (by omega)]
+  · simp [h]
 
 theorem sameBits_bitW {p q : Peer} (h : sameBits p q) (i : Nat) : bitW q i = bitW p i := by
   unfold bitW; rw [h.1]
@@ -301,52 +345,57 @@ theorem handleMsg_av (g : Geom) (pieces : List PieceSt) (k : Nat) (p : Peer) (m 
     simp only [handleMsg]
     split
     · exact ⟨by simp, hlen, hnil⟩
-    · rename_i hx
-      split
+    · split
       · rename_i hb
-        refine ⟨?_, by simp [setBit, hlen], by simp⟩
-        simp only [bitW, setBit, getB_setN, sumL_cons, sumL_nil, evMinus, evPlus]
+        have hb' : getB p.bits x = false := by simpa using hb
+        refine ⟨?_, trivial, by simp⟩
+        simp only [bitW, getB_setBit_true, sumL_cons, sumL_nil, evMinus, evPlus]
         by_cases hxi : x = i
-        · subst hxi
-          have : getB p.bits x = false := by simpa using hb
-          simp [this, hlen]; omega
+        · subst hxi; simp [hb']
         · simp [hxi]
       · exact ⟨by simp, hlen, hnil⟩
   | bitfield bs =>
     simp only [handleMsg]
     split
     · exact ⟨by simp, hlen, hnil⟩
-    · refine ⟨?_, by simp [setBits], by simp⟩
+    · refine ⟨?_, trivial, by simp⟩
       simp only [sumL_append, sumL_cons, sumL_nil, hr.1, hr.2, evMinus, evPlus, cnt_bitList, bitW]
       omega
   | haveAll =>
     simp only [handleMsg]
     split
     · exact ⟨by simp, hlen, hnil⟩
-    · refine ⟨?_, by simp, by simp⟩
-      simp only [sumL_append, sumL_cons, sumL_nil, hr.1, hr.2, evMinus, evPlus, cnt_bitList, bitW]
-      omega
+    · split
+      · refine ⟨?_, trivial, by simp⟩
+        simp only [sumL_append, sumL_cons, sumL_nil, hr.1, hr.2, evMinus, evPlus, cnt_bitList, bitW]
+        omega
+      · refine ⟨?_, trivial, fun _ j => by cases j <;> rfl⟩
+        have : ∀ j, getB ([] : List Bool) j = false := fun j => by cases j <;> rfl
+        simp only [hr.1, hr.2, bitW, this]
+        simp
   | haveNone =>
     simp only [handleMsg]
     split
     · exact ⟨by simp, hlen, hnil⟩
-    · refine ⟨?_, by simp, fun _ j => by simp [getB_replicate]⟩
-      simp only [hr.1, hr.2, bitW, getB_replicate]
+    · refine ⟨?_, trivial, fun _ j => by cases j <;> rfl⟩
+      have : ∀ j, getB ([] : List Bool) j = false := fun j => by cases j <;> rfl
+      simp only [hr.1, hr.2, bitW, this]
       simp
   | dontHave x =>
     simp only [handleMsg]
     split
     · exact ⟨by simp, hlen, hnil⟩
     · split
-      · rename_i hb
-        refine ⟨?_, by simp [setBit, hlen], ?_⟩
-        · simp only [bitW, setBit, getB_setN, sumL_cons, sumL_nil, evMinus, evPlus]
-          by_cases hxi : x = i
-          · subst hxi
-            simp [hb]; omega
-          · simp [hxi]
-        · intro hn; rw [hnil hn x] at hb; cases hb
-      · exact ⟨by simp, hlen, hnil⟩
+      · exact ⟨by simp [bitW], hlen, hnil⟩
+      · split
+        · rename_i hb
+          refine ⟨?_, trivial, ?_⟩
+          · simp only [bitW, getB_setBit_false, sumL_cons, sumL_nil, evMinus, evPlus]
+            by_cases hxi : x = i
+            · subst hxi; simp [hb]
+            · simp [hxi]
+          · intro hn; rw [hnil hn x] at hb; cases hb
+        · exact ⟨by simp [bitW], hlen, hnil⟩
   | allowedFast x =>
     simp only [handleMsg]
     split
@@ -435,6 +484,34 @@ theorem exitEvents_av (g : Geom) (k : Nat) (p : Peer) (i : Nat) :
 end Storrent.Sched
 
 namespace Storrent.Sched
+
+/-- PeerMetadataComplete for a peer that said HaveAll before the metadata was known: its (necessarily
+    nil, hence empty) bitmap is filled and announced — once. -/
+theorem handlePeerEv_av (g : Geom) (k : Nat) (p : Peer) (e : PeerEv) (slow : Bool) (i : Nat) (hp : BitsOK g p) :
+    bitW (handlePeerEv g k p e slow).1 i + sumL (evMinus i) (handlePeerEv g k p e slow).2.1
+      = bitW p i + sumL (evPlus i) (handlePeerEv g k p e slow).2.1 ∧
+    BitsOK g (handlePeerEv g k p e slow).1 := by
+  by_cases hne : e = .metadata
+  · subst hne
+    obtain ⟨_, hnil⟩ := hp
+    unfold handlePeerEv
+    simp only []
+    split
+    · exact ⟨rfl, trivial, hnil⟩
+    · split
+      · split
+        · exact ⟨rfl, trivial, hnil⟩
+        · rename_i hb
+          have hb' : p.bmNil = true := by simpa using hb
+          refine ⟨?_, trivial, by simp⟩
+          simp only [bitW, hnil hb' i, sumL_cons, sumL_nil, evMinus, evPlus, cnt_bitList]
+          simp
+      · split
+        · exact ⟨rfl, trivial, hnil⟩
+        · exact ⟨rfl, trivial, hnil⟩
+  · obtain ⟨h1, h2⟩ := handlePeerEv_quiet (neutral_plus i) g k p e slow hne
+    obtain ⟨_, h3⟩ := handlePeerEv_quiet (neutral_minus i) g k p e slow hne
+    exact ⟨by rw [h2, h3, sameBits_bitW h1], sameBits_ok h1 hp⟩
 
 /-! ### the global availability invariant -/
 
@@ -578,7 +655,7 @@ theorem ainv_frame (s s' : State) (hI : AInv s) (hg : s'.g = s.g) (hp : s'.peers
     obtain ⟨p, hpm, e⟩ := exists_of_strip hp p' hp'
     simp only [strip, Prod.mk.injEq] at e
     unfold BitsOK
-    rw [hg, ← e.1, ← e.2.1]; exact hW.bits p hpm
+    rw [← e.1, ← e.2.1]; exact hW.bits p hpm
   · intro p' hp' hal
     obtain ⟨p, hpm, e⟩ := exists_of_strip hp p' hp'
     simp only [strip, Prod.mk.injEq] at e
@@ -602,6 +679,14 @@ theorem castCancel_strip (ex : Option Nat) (c : Nat) : ∀ (l : List Peer) (i : 
     intro i
     simp only [castCancel, List.map_cons, ih]
     split <;> rfl
+
+theorem castMeta_strip (l : List Peer) : (castMeta l).map strip = l.map strip := by
+  unfold castMeta
+  rw [List.map_map]
+  apply List.map_congr_left
+  intro p _
+  simp only [Function.comp]
+  split <;> rfl
 
 theorem dataLoop_strip (ex : Option Nat) : ∀ (cs : List Nat) (s : State),
     ∃ inf und pan prs, dataLoop ex cs s = { s with inFlight := inf, under := und, panicked := pan, peers := prs } ∧
@@ -820,7 +905,7 @@ theorem ainv_connect (s : State) (hI : AInv s) (p : Peer)
   · intro q hq
     rcases List.mem_append.mp hq with hq | hq
     · exact hW.bits q hq
-    · simp at hq; subst hq; exact ⟨by rw [h1]; simp, fun _ => hz⟩
+    · simp at hq; subst hq; exact ⟨trivial, fun _ => hz⟩
   · intro q hq ha
     rcases List.mem_append.mp hq with hq | hq
     · exact hW.dead q hq ha
@@ -922,14 +1007,11 @@ theorem step_ainv (s : State) (op : Op) (hI : AInv s) : AInv (step s op).1 := by
         · split
           · exact hI
           · rename_i e rest he
-            have hbo := hW.bits p (mem_of_get _ _ _ hp)
-            obtain ⟨h1, h2⟩ := handlePeerEv_av (neutral_plus 0) s.g { p with evq := rest } e slow
-            have hsb : sameBits p (handlePeerEv s.g { p with evq := rest } e slow).1 := ⟨h1.1, h1.2⟩
-            refine ainv_commitPeer s hI i p hp rest true _ _ ?_ (sameBits_ok hsb hbo) (by simp)
+            have hbo : BitsOK s.g { p with evq := rest } := hW.bits p (mem_of_get _ _ _ hp)
+            refine ainv_commitPeer s hI i p hp rest true _ _ ?_
+              (handlePeerEv_av s.g i { p with evq := rest } e slow 0 hbo).2 (by simp)
             intro j
-            obtain ⟨_, a2⟩ := handlePeerEv_av (neutral_plus j) s.g { p with evq := rest } e slow
-            obtain ⟨_, a3⟩ := handlePeerEv_av (neutral_minus j) s.g { p with evq := rest } e slow
-            rw [a2, a3, sameBits_bitW hsb]
+            exact (handlePeerEv_av s.g i { p with evq := rest } e slow j hbo).1
     | peerMsg i m slow =>
       simp only []
       split
@@ -1070,6 +1152,13 @@ theorem step_ainv (s : State) (op : Op) (hI : AInv s) : AInv (step s op).1 := by
       · split
         · exact ainv_frame s _ hI rfl rfl hsame rfl rfl id
         · exact hI
+    | metaComplete =>
+      simp only []
+      split
+      · exact hI
+      · split
+        · exact ainv_frame s _ hI rfl rfl hsame rfl rfl id
+        · exact ainv_frame s _ hI rfl (castMeta_strip s.peers) hsame rfl rfl id
 
 theorem init_ainv (g : Geom) (tcap : Nat) : AInv (init g tcap) := by
   refine ⟨⟨?_, ?_⟩, ?_⟩
